@@ -51,6 +51,8 @@ pub use crate::connection::{
     SendDatagramError, SendStream, ShouldTransmit, StreamEvent, Streams, UdpStats, WriteError,
     Written,
 };
+#[cfg(feature = "verif-hooks")]
+pub use connection::VerifAssembler;
 #[cfg(feature = "qlog")]
 pub use connection::qlog::QlogStream;
 
